@@ -4,7 +4,7 @@
 From Coq Require Import List Bool Arith Lia Ring ZArith Reals Permutation.
 From Coquelicot Require Import Coquelicot.
 From QV Require Import Base.Mat Base.Zi C17.Alg C17.Model C17.ZiInst
-  C18.Model C18.Spec C18.ZiInst C18.ProofsBits C18.ProofsPtrace C18.ProofsAlg C18.ProofsReal C18.ProofsSeed.
+  C18.Model C18.Spec C18.ZiInst C18.ProofsBits C18.ProofsPtrace C18.ProofsAlg C18.ProofsReal C18.ProofsSeed C18.ProofsFid.
 Import ListNotations.
 Close Scope R_scope.
 
@@ -59,6 +59,13 @@ Section Generic.
     purity_dm K d (outer K psi (vconj cj psi)) = mul K (norm2 K cj psi) (norm2 K cj psi).
   Proof. intros. now apply (purity_pure K cj SR cj0). Qed.
 
+  (* process_fidelity(L) = Re tr(L) / d^2: for L = kraus_to_liouville(Ks) (row or column order) the trace is
+     sum_K tr(K) conj(tr K), i.e. F_pro(E, id) = (1/d^2) sum_K |tr K|^2 -- every dimension *)
+  Theorem process_fidelity_from_kraus : forall col d Ks,
+    trace K (d * d) (kraus_to_liouville K cj col d Ks)
+    = lsum K (map (fun U => mul K (trace K d U) (cj (trace K d U))) Ks).
+  Proof. intros. now apply (liouville_trace_from_kraus K cj SR cj0 cj_add). Qed.
+
   (* random_density_matrix / random_hermitian(semidefinite): G = A A^dagger is Hermitian, ... *)
   Theorem generator_hermitian : forall d r A i j, i < d -> j < d ->
     mget K (gram K cj d r A) i j = cj (mget K (gram K cj d r A) j i).
@@ -81,6 +88,7 @@ Print Assumptions ptrace_order_irrelevant.
 Print Assumptions ptranspose_ok.
 Print Assumptions fidelity_pure_shortcut.
 Print Assumptions purity_of_pure_state.
+Print Assumptions process_fidelity_from_kraus.
 Print Assumptions generator_hermitian.
 Print Assumptions generator_psd.
 Print Assumptions generator_trace.
